@@ -134,7 +134,7 @@ def make_judge(chk: Check):
                     viols.append(Viol("file-does-not-contribute", kind, {"file": g["rel"], "flag": tr, "filtered_dir": g["filtered"]}))
                 elif not in_stub:
                     viols.append(Viol("file-missing-from-stubs", kind, {"file": g["rel"], "flag": tr}))
-            chk.case_ok(f"{kind}:{'tr' if tr else 'no'}:{g['rel'].count('/')}")
+            chk.case_ok(f"{kind}:{'tr' if tr else 'no'}:{g['rel'].count('/')}", ident=(case.cid, g["rel"]))
         chk.counters["dir_permutations_seen"] += rec.get("dir_perm", 0)
         pair = case.meta["pair"]
         store.setdefault(pair, {})[tr] = rec["tree"]
